@@ -1051,6 +1051,41 @@ def run_pairs(chk, tier):
     chk.extra["pairs"] = len(pops)
 
 
+def run_enum(chk, tier):
+    """Exhaustive search for a collision of the escape/join scheme on the REAL keys: all tuples of 2..4 strings over {$,\\,a}
+    (as [n]string / struct / interface-wrapped keys) bucketed by the implementation's key string on the Node side."""
+    broken = bool(chk.tie_breaks)
+    grid = [(2, 2), (3, 2)]
+    if tier == "thorough":
+        grid = [(2, 3), (3, 3), (4, 2)]
+    elif broken:
+        grid += [(3, 3), (4, 2)]   # the model no longer describes the code: search harder
+    ops = ["mapkey enum %d %d %s" % (ar, ml, shape) for (ar, ml) in grid for shape in ("arr", "struct", "iface-arr", "iface-struct")]
+    impl = C.run_node(ops)
+    model = C.run_driver("C15", ops)
+    bad = [(o, a, b) for o, a, b in zip(ops, impl, model) if a.startswith("runner-error") or a.startswith("bad") or b.startswith("bad")]
+    if bad:
+        raise RuntimeError("C15 harness failure: %r" % (bad[:2],))
+    chk.compare("keyfor-enum", ops, impl, model, kind=lambda o, a: "enum:" + o.split()[4])
+    chk.extra["enum_tuples"] = sum(int(b.split()[1]) for b in model)
+    chk.extra["exhaustive_subspace"] = "all tuples of arity/maxlen %s of strings over {$,\\,a} x {array, struct, interface-wrapped}" % (grid,)
+    # every reported collision again as an ordinary typed pair (concrete failing input, also seen by the Lean spec)
+    pairs = []
+    for o, a in zip(ops, impl):
+        if a.startswith("collide"):
+            for pr in a.split()[2:]:
+                v1, v2 = pr.split("|")
+                ar = int(v1.split(",")[0][1:])
+                t = ("A%d,S" % ar) if v1[0] == "a" else ",".join(["T%d" % ar] + ["S"] * ar)
+                pairs.append("mapkey pair %s %s %s" % (t, v1, v2))
+    pairs = sorted(set(pairs))[:16]
+    if pairs:
+        ji = C.run_node(["mapkey reset"] + pairs)[1:]
+        jm = C.run_driver("C15", ["mapkey reset"] + pairs)[1:]
+        chk.compare("keyfor-pairs-targeted", pairs, [x.split(" ")[2] for x in ji], [x.split(" ")[2] for x in jm],
+                    spec=[x.split(" ")[3] for x in jm])
+
+
 def run(tier, seed):
     chk = C.Check("C15", tier, seed)
     chk.rule = ("(a) pairs of typed key values: key types generated from the comparable kinds nested to depth 3 (type objects built with the "
@@ -1074,6 +1109,7 @@ def run(tier, seed):
     chk.proof = C.check_proofs("C15", THEOREMS, tier)
     run_pairs(chk, tier)
     run_programs(chk, tier)
+    run_enum(chk, tier)
     return chk.finish()
 
 
